@@ -77,6 +77,17 @@ def classifyStep (acc : List (Src α) × List (Src α) × List (Src α)) (s : Sr
 def classify (cat : List (Src α)) : List (Src α) × List (Src α) × List (Src α) :=
   cat.foldl classifyStep ([], [], [])
 
+/-- NOT the code: `classify_catalog` written as three passes (three comprehensions) over a ONE-SHOT
+    iterable (generator, `iter(list)`, `itertools.chain`, `filter`): the first pass uses the iterator
+    up, the other two see nothing.  `classify` above consumes the sequence exactly once (one fold), so
+    it is the same function of the sequence of sources whatever container delivers it.  Kept for the
+    negation witness. -/
+def classifyThreePassOneShot (cat : List (Src α)) : List (Src α) × List (Src α) × List (Src α) :=
+  let exhausted : List (Src α) := []
+  (cat.filter (fun s => s.cls.isInstance .component),
+   exhausted.filter (fun s => s.cls.isInstance .island),
+   exhausted.filter (fun s => s.cls.isInstance .simple && !s.cls.isInstance .component && !s.cls.isInstance .island))
+
 /-! ### file names -/
 
 /-- index of the last occurrence of `c` -/
